@@ -68,6 +68,8 @@ Proof.
     destruct (alookup id0 (t1 (dbs s))); [|apply same_at_refl].
     destruct (good1 (height s) c); apply same_at_tables; reflexivity.
   - (* Unlock1 *) cbn [step]. destruct (mem id0 (locks s)); apply same_at_tables; reflexivity.
+  - (* Open1 *) cbn [step]. destruct (revisable1 (height s) (t1 (dbs s)) id0) as [[]| |];
+      apply same_at_tables; reflexivity.
   - (* Act *) cbn [step]. destruct (alookup u (upds s)); [|apply same_at_refl].
     destruct (upd_apply (u_roots u0) a); apply same_at_tables; reflexivity.
   - (* Commit1 *)
@@ -75,21 +77,21 @@ Proof.
     destruct (alookup u (upds s)) as [x|] eqn:Lu.
     2:{ cbn [step] in E. rewrite Lu in E. injection E as <- _. apply same_at_refl. }
     cbn [step] in E. rewrite Lu in E. cbn [mem existsb] in T. rewrite Bool.orb_false_r in T.
-    destruct (outcome_cases _ s (m_commit1 s x nrev nfsize nmroot) fault
+    destruct (outcome_cases _ s (g_commit1 s x nrev nfsize nmroot) fault
                (fun d => set_upds (set_cache (set_dbs s d) (aset (u_cid x) (u_roots x) (cache s)))
                   (aset u {| u_cid := u_cid x; u_roots := u_roots x; u_old := u_roots x; u_acts := [] |} (upds s)))
-               (fok_m_commit1 _ _ _ _ _)) as [E0|(d' & E0 & E1)].
+               (fok_g_commit1 _ _ _ _ _)) as [E0|(d' & E0 & E1)].
     + rewrite E in E0. cbn [fst] in E0. subst s'. apply same_at_refl.
-    + rewrite E in E1. injection E1 as -> _. unfold m_commit1 in E0.
+    + rewrite E in E1. injection E1 as -> _. apply guarded_ok in E0 as [_ E0]. unfold m_commit1 in E0.
       apply store_revise1_ok in E0 as (c & t' & ns' & Lc & _ & ->).
       unfold same_at, cache_get. cbn [dbs set_upds set_cache set_dbs set_t1 set_nsec t1 t2 cache].
       rewrite !alookup_aset_other by lia. auto.
   - (* Renew1 *)
     apply Bool.orb_false_iff in T as [T1 T2]. cbn [step].
-    match goal with |- context [outcome s (m_renew1 ?a ?b ?c ?d ?e ?f ?g ?h ?i ?j ?k ?fl) ?fn] =>
-      destruct (outcome_cases _ s (m_renew1 a b c d e f g h i j k) fl fn (fok_m_renew1 _ _ _ _ _ _ _ _ _ _ _)) as [E|(d' & E & ->)] end.
+    match goal with |- context [outcome s (g_renew1 ?a ?b ?c ?d ?e ?f ?g ?h ?i ?j ?k ?fl) ?fn] =>
+      destruct (outcome_cases _ s (g_renew1 a b c d e f g h i j k) fl fn (fok_g_renew1 _ _ _ _ _ _ _ _ _ _ _)) as [E|(d' & E & ->)] end.
     + rewrite E. apply same_at_refl.
-    + unfold m_renew1 in E.
+    + apply guarded_ok in E as [_ E]. unfold m_renew1 in E.
       destruct (negb (cmroot =? 0)); [discriminate|]. destruct (negb (cfsize =? 0)); [discriminate|].
       destruct (negb (crev =? max_rev)); [discriminate|].
       destruct (negb (nfsize =? sector_size * nlen (cache_get s old))); [discriminate|].
